@@ -464,3 +464,49 @@ pub fn run(t: &[&str]) -> String {
     }
     out.join(" | ")
 }
+
+/// C01 stream: `c1 <insn-limit> <hexsrc>`: evaluate one source on a fresh interpreter and print the
+/// observables the structural semantics talks about.
+pub fn run_c1(t: &[&str]) -> String {
+    let mut sess = Session::new();
+    let lim: usize = t[0].parse().unwrap();
+    sess.states[0].set_insn_limit(Some(lim)).unwrap();
+    let src = String::from_utf8(parse_hex_bytes(t[1])).expect("utf8");
+    let r = sess.states[0].eval(&src);
+    let xs = &mut sess.states[0];
+    let d = xs.verif_dump(false);
+    let fld = |name: &str| -> String {
+        for f in d.split(" ; ") {
+            if f == name {
+                return String::new();
+            }
+            if f.starts_with(name) && f.as_bytes().get(name.len()) == Some(&b' ') {
+                return f[name.len() + 1..].to_string();
+            }
+        }
+        String::new()
+    };
+    let heap: Vec<&str> = d.split(" ; ").find(|f| f.starts_with("heap")).unwrap().split(' ').skip(7).collect();
+    let code_len: usize = fld("code").parse().unwrap_or(0);
+    let rs = fld("rs");
+    let rsn = if rs.is_empty() { 0 } else { rs.split(' ').count() };
+    // locals of the frames, bottom first
+    let at = match (&r, xs.last_err_location()) {
+        (Err(_), Some(loc)) if code_len > 0 => {
+            let tr = loc.token.range();
+            format!("{}-{}", tr.start, tr.end)
+        }
+        _ => String::from("-"),
+    };
+    let out = xs.read_stdout().unwrap_or_default();
+    format!(
+        "R={} DS=[{}] HEAP=[{}] LOOPS=[{}] RS={} OUT={} AT={}",
+        res_string(xs, &r),
+        fld("ds"),
+        heap.join(" "),
+        fld("loops"),
+        rsn,
+        hex_bytes(out.as_bytes()),
+        at
+    )
+}
